@@ -31,16 +31,20 @@ if [ -n "$DEMOS" ]; then
 fi
 echo "DEMO: $demo_result"
 cd /verif
-q=$(tools/seedcheck.sh "$ID" "$SRC/patch.diff" quick 2>&1 | grep '^SEED: check\|^SEED: pinned\|^SEED: does\|^  \[' | head -3)
+CK="${SEED_CHECK:-$ID}"   # SEED_CHECK: the check that owns this kind of defect when it is not the property's own
+q=$(tools/seedcheck.sh "$CK" "$SRC/patch.diff" quick 2>&1 | grep '^SEED: check\|^SEED: pinned\|^SEED: does\|^  \[' | head -3)
 echo "$q"
 caught="quick"
-if ! echo "$q" | grep -q 'exit=1'; then
-  t=$(tools/seedcheck.sh "$ID" "$SRC/patch.diff" thorough 2>&1 | grep '^SEED: check\|^SEED: pinned\|^SEED: does\|^  \[' | head -3)
+if ! echo "$q" | grep -q 'exit=1' && [ -n "${SEED_QUICK_ONLY:-}" ]; then
+  caught="MISSED(quick)"
+elif ! echo "$q" | grep -q 'exit=1'; then
+  t=$(tools/seedcheck.sh "$CK" "$SRC/patch.diff" thorough 2>&1 | grep '^SEED: check\|^SEED: pinned\|^SEED: does\|^  \[' | head -3)
   echo "$t"
   if echo "$t" | grep -q 'exit=1'; then caught="thorough"; else caught="MISSED"; fi
   q="$q | thorough: $t"
 fi
 mkdir -p "seeded/$DEST"
+[ "$CK" != "$ID" ] && echo "$CK" > "seeded/$DEST/check_with"
 cp "$SRC/patch.diff" "seeded/$DEST/"; cp "$SRC"/*_test.go "$SRC"/*.go "seeded/$DEST/" 2>/dev/null
 python3 - "$ID" "$demo_result" "$caught" "$q" "$SRC" "$DEST" <<'PY'
 import json,sys
